@@ -74,8 +74,8 @@ def validate_node(run, path, store, ov, what):
     run.cov["traces_validated_against_impl"] += len(traces)
     nontriv = [t for s, t in traces if any(e.get("ev") == "Lookup" for e in t) and any(e.get("ev") == "Readdir" for e in t)]
     run.cov["distinct_nontrivial"] += len({digest(t) for t in nontriv})
-    pick = [t for t in nontriv if ".wh..wh.foo" in t[0].get("src", []) and len(t) < 16][:1]
-    run.add_samples([{"store": store, "mode": what, "events": t[:16]} for t in pick], limit=2)
+    pick = [t for t in nontriv if ".wh..wh.foo" in t[0].get("src", []) and len(t) < 16][:1] or [t for t in nontriv if len(t) < 24][:1]
+    run.add_samples([{"store": store, "mode": what, "events": t[:16]} for t in pick], limit=4)
 
 
 def fix_empty(x):
